@@ -196,7 +196,7 @@ def check_lay_case(ctx, lay, lin_case):
     c07.check_linear (forward, adjoint on every basis vector, get_matrix, T) against the numbers of the `lin` case."""
     import scipy.sparse as sp
     import cuqi
-    from cuqiverif.modelgeom_real import build_geometry, rmat, gkey
+    from cuqiverif.modelgeom_real import build_geometry, rmat, gkey, construct, ConstructionRefused, report_refusal
     from cuqiverif.props.c07 import check_linear, _lin_expectations
     from cuqiverif.lingauss_common import layout
     case = dict(lin_case, kind="lay", layM=lay["layM"], layX=lay["layX"])
@@ -214,10 +214,14 @@ def check_lay_case(ctx, lay, lin_case):
             M = layout(F.copy(), lay["layM"])
         else:
             M = sp.csc_matrix(F.astype(int) if lay["layM"] == "int" else F.astype(np.float32))
-        return cuqi.model.LinearModel(M, range_geometry=rng.obj, domain_geometry=dom.obj)
+        return construct(key, lambda: cuqi.model.LinearModel(M, range_geometry=rng.obj, domain_geometry=dom.obj))
 
     x0, y0 = np.array(exp["x"], dtype=float), np.array(exp["y"], dtype=float)
-    check_linear(ctx, case, key, factory, exp)
+    try:
+        check_linear(ctx, case, key, factory, exp)
+    except ConstructionRefused as r:
+        report_refusal(ctx, case, "lay/construct", r)
+        return
     if not (np.array_equal(np.asarray(exp["x"], dtype=float), x0) and np.array_equal(np.asarray(exp["y"], dtype=float), y0)):
         ctx.mismatch("input_modified/%s" % key, case, "forward / adjoint modified the vector handed in")
 
